@@ -559,7 +559,7 @@ def iirfilter(fs, N, Wn, rp, rs, btype, ftype, target):
     while True:
         y_filt, zo = signal.lfilter(b, a, y, zi=zo, axis=-1)
         if isinstance(y, PipelineData):
-            y_filt = PipelineData(y_filt, y.fs, y.s0)
+            y_filt = PipelineData(y_filt, y.fs, y.s0, y.channel, y.metadata)
         target(y_filt)
         y = (yield)
 
